@@ -126,3 +126,27 @@ def register(reg):
         "evaluator likewise; EpsMOEA and NSGA-II runs with the worst-case evaluator are explored with every random decision flipped.",
         "One evaluator instance per algorithm; sensitivity to 1e-12 relative, gradient exact.",
         "DESIGN.md section 5 C14")
+
+    reg("C08", "CHOICE", "exploration",
+        "exhaustive enumeration of lattice parents x owned draws for the operators; deviation-bounded exploration of real runs",
+        "The four variation operators are executed for every lattice parent (bounds, 1 ulp inside, coincident and almost coincident) "
+        "with every combination of their random draws taken from an extreme-value list, over 7 boxes incl. tiny/huge/offset ranges; "
+        "all generators over the same boxes; and NSGA-II, EpsMOEA, OMOPSO, SMPSO, PSOGA runs in which every draw may deviate "
+        "(decision flipped, value at 0 or 1-2^-53, other pick), with every vector reaching the objective checked against the box.",
+        "Parents inside the box; widths up to 2e12; run exploration bounded to 1 (thorough 2) deviations per execution.",
+        "DESIGN.md section 5 C08")
+    reg("C09", "CHOICE", "exploration",
+        "deviation-bounded exploration of full runs (decisions, picks and transient failures as choices) + exhaustive acceptance step",
+        "Complete NSGA-II / EpsMOEA / OMOPSO / SMPSO runs for N<=4, G<=3 are re-executed with every random decision flipped, every "
+        "selection pick changed and every objective call failing transiently, one at a time (thorough: pairs), plus scripted 4-fold "
+        "failures of one design; each execution is judged by the bookkeeping oracle (tags, sizes, budget, duplicates, elitism, "
+        "monotone best). The eps-MOEA acceptance step is enumerated exhaustively for populations <=3 (thorough 4).",
+        "Value draws never deviate (identical designs arise only the realistic way, through suppressed crossover/mutation).",
+        "DESIGN.md section 5 C09")
+    reg("C18", "CHOICE", "exploration",
+        "exhaustive enumeration of cost pairs / value lattices for the swarm primitives; deviation-bounded exploration of swarm runs",
+        "update_particle_best over all C01 pair alphabets, update_position and speed_constriction over position/velocity lattices far "
+        "outside the box, update_velocity with every combination of extreme draws, and OMOPSO/SMPSO/PSOGA runs with every draw "
+        "deviating, inspecting the leader archive after every update_global_best and every personal-best replacement.",
+        "Leader dominance judged by the C01 reference relation.",
+        "DESIGN.md section 5 C18")
